@@ -71,6 +71,14 @@ theorem async_stale_close_debug_assert_counterexample :
     [.num 3, .pending, .num 2, .pending, .panic] := by
   decide
 
+/-- **F121** `AsyncStream::with_limits(4, 0, ..)`: `poll_write` of one byte never returns (the model's
+loop runs out of fuel; `Props.C12.async_max0_poll_write_spins` shows it for every fuel), while
+`poll_write` of an empty buffer, `poll_flush` and `poll_close` are fine. -/
+theorem async_max0_write_spins_counterexample :
+    (PollAdapter.run (PollAdapter.State.new 4 0 [] []) [.pw 0 [], .pfl 0, .pw 0 [0x81]]).2 =
+    [.num 0, .unit, .hang] := by
+  decide
+
 /-- the run of F15 is exactly what `GuardedRun` excludes -/
 theorem async_stale_flush_unguarded :
     ¬ GuardedRun (PollAdapter.State.new 4 64 [] [.p, .w 100, .p, .w 100, .w 100])
